@@ -481,6 +481,70 @@ func genTableCase(r *rand.Rand) Case {
 	return c
 }
 
+// ---- dispatch.tmpdone: a temporary handler removed by somebody else first -----------------
+//
+// Case: mode ("d": AddTmp with a 15ms deadline that passes; "r": the function returns true),
+// remover ("R" Remove(cuid), "C" Clear(cmd), "X" ClearAll, "-" nobody), cmd.  The remover acts
+// after the registration and before the wrapper's / deadline goroutine's own Remove.  The
+// statement: a temporary handler that returned true or whose deadline passed has its done
+// channel closed.
+func runTmpDone(c Case) Result {
+	if len(c) < 3 {
+		return Result{Obs: "?args"}
+	}
+	mode, rem, cmd := c[0], c[1], c[2]
+	cl := girc.New(drive.BaseConfig())
+	base := runtime.NumGoroutine()
+	entered := make(chan struct{})
+	gate := make(chan struct{})
+	var once sync.Once
+	var dl time.Duration
+	if mode == "d" {
+		dl = 15 * time.Millisecond
+	}
+	cuid, done := cl.Handlers.AddTmp(cmd, dl, func(_ *girc.Client, _ girc.Event) bool {
+		once.Do(func() { close(entered) })
+		<-gate
+		return mode == "r"
+	})
+	if mode == "r" {
+		cl.RunHandlers(&girc.Event{Command: strings.ToUpper(cmd)})
+		select {
+		case <-entered:
+		case <-time.After(10 * time.Second):
+			close(gate)
+			return Result{Obs: "?not-invoked", Oracle: "missed-delivery: temporary handler not invoked", Sig: "stuck"}
+		}
+	}
+	r1 := "-"
+	switch rem {
+	case "R":
+		r1 = B(cl.Handlers.Remove(cuid))
+	case "C":
+		cl.Handlers.Clear(cmd)
+	case "X":
+		cl.Handlers.ClearAll()
+	}
+	close(gate)
+	quiet := c06Quiesce(base)
+	closed := false
+	select {
+	case <-done:
+		closed = true
+	default:
+	}
+	res := Result{Obs: "ok1=" + r1 + ";closed=" + B(closed), Sig: mode + rem}
+	switch {
+	case !quiet:
+		res.Oracle = "handlers-never-finish: goroutines still running after 10s"
+	case !closed && rem == "-":
+		res.Oracle = "tmp-done-not-closed: the function returned true / the deadline passed, done is still open"
+	case !closed:
+		res.Oracle = "tmp-done-not-closed-after-removal: the function returned true / the deadline passed after somebody else removed the handler; done is never closed"
+	}
+	return res
+}
+
 func init() {
 	Register(&Suite{
 		Name: "dispatch.table",
@@ -507,5 +571,25 @@ func init() {
 		},
 		Gen: genTableCase,
 		Run: runTableCase,
+	})
+	Register(&Suite{
+		Name: "dispatch.tmpdone",
+		Prop: []string{"C06"},
+		Fixed: func() []Case {
+			var out []Case
+			for _, m := range []string{"d", "r"} {
+				for _, rem := range []string{"-", "R", "C", "X"} {
+					for _, cmd := range []string{"FOO", "foo", "*"} {
+						out = append(out, Case{m, rem, cmd})
+					}
+				}
+			}
+			return out
+		},
+		Exhaustive: "both ways a temporary handler ends (returns true, deadline) x every way somebody else can remove it first (nobody, Remove, Clear, ClearAll) x 3 commands",
+		Gen: func(r *rand.Rand) Case {
+			return Case{Pick(r, "d", "r"), Pick(r, "-", "R", "C", "X"), Pick(r, "FOO", "Foo", "bar", "*", "PRIVMSG")}
+		},
+		Run: runTmpDone,
 	})
 }
